@@ -3204,7 +3204,7 @@ pub fn matrix_column_elements(&mut self, column_elements: &[&MatrixColumn]) -> S
     if self.html {
       format!("<span class=\"mech-string\">\"{}\"</span>", node.text.to_string())
     } else {
-      format!("\"{}\"", node.text.to_string())
+      format!("\"{}\"", node.text.to_string().replace('\\', "\\\\").replace('"', "\\\""))
     }
   }
 
